@@ -127,3 +127,74 @@ def c09_charsets(tier="quick", seed=0):
         out.append(ob(oid, bad is None, "K4", f"{n} code points" if bad is None else f"U+{bad[0]:04X}: engine {bad[1]}, ECMAScript {not bad[1]}",
                       witness=(f"/^{esc}$/.test(String.fromCharCode(0x{bad[0]:x}))" if bad else None), confirmed=True if bad else None, domain=n, key=oid))
     return out
+
+
+# ---- bounded: frozen results of a reference ECMAScript engine ---------------------------------------------------------
+# /verif/spec_fixtures/regex_v8.json: 2600 generated patterns (alternation, greedy/lazy/counted quantifiers, captures,
+# back-references incl. into open groups, look-ahead/look-behind with captures, anchors, word boundaries, flags i/m/s)
+# x 14 subjects each, with the exec() result (index and captures, undefined as null) recorded once at development time
+# from V8 (node 20).  The check replays them on the engine; it never runs node.
+def _fixture_chunk(cases):
+    from microjs import Context
+    ctx = Context(time_limit=30)
+    ctx.eval("""function RX(p, f, subs) { var re = new RegExp(p, f); var out = []; for (var i = 0; i < subs.length; i++) { var m;
+      try { re.lastIndex = 0; m = re.exec(subs[i]); } catch (e) { out.push('ERR:' + e.name); continue; }
+      if (m === null) { out.push(null); continue; } var r = [m.index]; for (var j = 0; j < m.length; j++) r.push(m[j] === undefined ? null : m[j]); out.push(r); } return out; }""")
+    bad = []
+    n = 0
+    for c in cases:
+        ctx.set("P", c["p"]); ctx.set("F", c["f"]); ctx.set("S", c["s"])
+        try:
+            got = ctx.eval("RX(P, F, S)")
+        except Exception as e:  # noqa
+            got = ["CRASH " + type(e).__name__ + ": " + str(e)[:60]] * len(c["s"])
+        for s, g, w in zip(c["s"], got, c["r"]):
+            n += 1
+            if g != w:
+                bad.append((c["p"], c["f"], s, g, w))
+    return n, bad
+
+
+def _features(p):
+    import re
+    f = []
+    if "(?<=" in p or "(?<!" in p:
+        f.append("lookbehind")
+    if "(?=" in p or "(?!" in p:
+        f.append("lookahead")
+    if re.search(r"\\[1-9]", p):
+        f.append("backref")
+    if re.search(r"\{\d", p):
+        f.append("counted")
+    if re.search(r"[*+?}]\?", p):
+        f.append("lazy")
+    return "+".join(f) or "plain"
+
+
+@groups.group(id="C09.bounded.reference-engine", prop="C09", kind="B", functions=["microjs.regex.parser", "microjs.regex.compiler", "microjs.regex.vm"])
+def c09_reference(tier="quick", seed=0):
+    import multiprocessing as mp, os
+    path = os.path.join(os.path.dirname(os.path.dirname(os.path.abspath(__file__))), "spec_fixtures", "regex_v8.json")
+    cases = json.load(open(path))
+    if tier == "quick":
+        rng = random.Random(seed)
+        hand = cases[:0]
+        cases = [c for i, c in enumerate(cases) if i % 3 == seed % 3 or "\\1" in c["p"] or "(?" in c["p"]]
+    chunks = [cases[i::16] for i in range(16)]
+    with mp.get_context("fork").Pool(16) as pool:
+        rs = pool.map(_fixture_chunk, chunks)
+    by = {}
+    for c in cases:
+        by.setdefault(_features(c["p"]), [0, None])[0] += len(c["s"])
+    for n, bad in rs:
+        for p, f, s, g, w in bad:
+            e = by[_features(p)]
+            if e[1] is None:
+                e[1] = (p, f, s, g, w)
+    out = []
+    for k, (n, b) in sorted(by.items()):
+        out.append(ob(f"C09.bounded.reference-engine.{k}", b is None, "B",
+                      f"{n} (pattern, subject) results equal the recorded reference results" if b is None else
+                      f"/{b[0]}/{b[1]}.exec({b[2]!r}): engine {b[3]!r}, reference {b[4]!r}",
+                      witness=(f"new RegExp({json.dumps(b[0])}, '{b[1]}').exec({json.dumps(b[2])})" if b else None), confirmed=True if b else None, domain=n))
+    return out
